@@ -120,6 +120,23 @@ def main():
                         ["PARAM 0 %d" % pp, "PARAM 2 %d" % dp, "CHG delrow %d" % m_, "CHG delcol %d" % n_,
                          "SOLVE " + ["DUAL", "PRIMAL", "EXACT D", "EXACT P"][di % 4], "ACCESS", "SOLVE " + ["PRIMAL", "DUAL"][di % 2], "ACCESS", "GETBASIS", "DUMP"]
                     cases.append((cid, "\n".join(L) + "\n"))
+        # fill-in: equality LPs of 10-16 rows with boxed columns and 30-45% dense rows; the LU factorization of their bases creates
+        # enough fill-in to exhaust the initial U / L space while a pivot column or row is being eliminated (make_uc_space /
+        # make_ur_space / make_lc_space re-pack and re-allocate the index arrays under the elimination's feet)
+        for fi in range(60 if ck.thorough() else 14):
+            m_ = ck.rng.randint(10, 16)
+            n_ = m_ + m_ // 2 + ck.rng.randint(0, 3)
+            dens = ck.rng.choice([0.3, 0.35, 0.45])
+            bnds = [ck.rng.choice([(0, 4), (-2, 3), (0, 1), (1, 6)]) for _ in range(n_)]
+            x0 = [ck.rng.randint(l, u) for l, u in bnds]
+            rows_ = []
+            for i in range(m_):
+                ent = [(j, F(ck.rng.choice([1, 2, 3, -1, -2, -3, 5, 7]))) for j in range(n_) if ck.rng.random() < dens] or [(i % n_, F(1))]
+                rows_.append(("E", sum(v * x0[j] for j, v in ent), F(0), ent))
+            lp = mk("fill%d" % fi, bool(fi % 2), [(F(ck.rng.randint(-4, 4)), F(l), F(u)) for l, u in bnds], rows_)
+            cid = "fill%d" % fi
+            cases.append((cid, "CASE %s\n%s\nPARAM 7 %d\nSOLVE EXACT %s\nACCESS\nGETBASIS\nSOLVE %s\nACCESS\nCHG obj 0 9\nSOLVE EXACT %s\nACCESS\nDUMP\n" % (
+                cid, lp_block(lp), fi % 3 != 0, "PD"[fi % 2], ["DUAL", "PRIMAL"][fi % 2], "DP"[fi % 2])))
         # very long names / long numbers through every writer (lines of about 4096 characters and more)
         lens = list(range(4080, 4110)) if ck.thorough() else [4087, 4088, 4089, 4094, 4095, 4096, 4097, 4103, 4104]
         for L in lens:
